@@ -1,1 +1,162 @@
 //! Verification facade: `pool` (feature `verif`).
+//!
+//! Gives an external harness the task runner a [`Database`] executes its statements on, so that
+//! jobs that return `Ok`, return `Err` or panic can be pushed through exactly the path
+//! `Database::execute` / `Session::execute` use (`SharedTaskRunner::run_with_result`: one job per
+//! call, the answer comes back over a channel), and so that the number of live worker threads can
+//! be observed.  Every wait is guarded: a job that will never be answered is reported as
+//! [`Answer::Lost`] instead of blocking the caller.
+use std::{
+    sync::mpsc::{self, Receiver, TryRecvError},
+    time::{Duration, Instant},
+};
+
+use crate::{
+    Database,
+    multithreading::runner::{BoxError, SharedTaskRunner, TaskError},
+};
+
+/// What a job does once a worker runs it.
+#[derive(Clone, Copy, Debug, PartialEq, Eq)]
+pub enum JobKind {
+    Ok,
+    Err,
+    Panic,
+}
+
+/// What the caller of a job observes.
+#[derive(Clone, Copy, Debug, PartialEq, Eq)]
+pub enum Answer {
+    /// the job's `Ok` came back
+    Ok,
+    /// the job's `Err` came back
+    Err,
+    /// the job panicked and the caller was told so by an error (closed channel / caught panic)
+    PanicAsError,
+    /// the job will never be answered: no worker is left to run it
+    Lost,
+    /// no answer within the time allowed although workers are alive
+    TimedOut,
+    /// the pool refused the job (shut down)
+    Rejected,
+}
+
+#[derive(Debug)]
+struct JobFailed;
+impl std::fmt::Display for JobFailed {
+    fn fmt(&self, f: &mut std::fmt::Formatter<'_>) -> std::fmt::Result {
+        f.write_str("job failed")
+    }
+}
+impl std::error::Error for JobFailed {}
+
+fn body(kind: JobKind) -> Result<(), BoxError> {
+    match kind {
+        JobKind::Ok => Ok(()),
+        JobKind::Err => Err(Box::new(JobFailed)),
+        JobKind::Panic => panic!("verif: panicking job"),
+    }
+}
+
+/// A job that has been submitted and not yet waited for.
+pub struct Ticket {
+    rx: Receiver<Answer>,
+    early: Option<Answer>,
+}
+
+#[derive(Clone)]
+pub struct Pool {
+    runner: SharedTaskRunner,
+}
+
+impl Pool {
+    /// The runner of `db` (shared, not copied): jobs submitted here compete with the database's statements.
+    pub fn of_database(db: &Database) -> Pool {
+        Pool { runner: db.task_runner.clone() }
+    }
+
+    pub fn size(&self) -> usize {
+        self.runner.verif_pool().verif_size()
+    }
+
+    pub fn live_workers(&self) -> usize {
+        self.runner.verif_pool().verif_live_workers()
+    }
+
+    pub fn queued(&self) -> usize {
+        self.runner.verif_pool().verif_queue_len()
+    }
+
+    /// Waits until the number of live workers has not changed for `quiet`, then returns it.
+    pub fn settled_live_workers(&self, quiet: Duration, max_wait: Duration) -> usize {
+        let start = Instant::now();
+        let mut last = self.live_workers();
+        let mut since = Instant::now();
+        while since.elapsed() < quiet && start.elapsed() < max_wait {
+            std::thread::sleep(Duration::from_millis(2));
+            let now = self.live_workers();
+            if now != last {
+                last = now;
+                since = Instant::now();
+            }
+        }
+        last
+    }
+
+    /// Submits a job through `SharedTaskRunner::run_with_result` — the call `Database::execute` makes —
+    /// on a helper thread, so that the caller of this function can give up waiting.
+    pub fn submit_blocking_call(&self, kind: JobKind) -> Ticket {
+        let (tx, rx) = mpsc::channel();
+        let runner = self.runner.clone();
+        std::thread::spawn(move || {
+            let r = runner.run_with_result(move |_ctx| body(kind));
+            let a = match r {
+                Ok(()) => Answer::Ok,
+                Err(TaskError::TaskFailed(_)) => Answer::Err,
+                Err(TaskError::Io(_)) => Answer::PanicAsError,
+                Err(TaskError::ThreadPool(_)) => Answer::Rejected,
+            };
+            let _ = tx.send(a);
+        });
+        Ticket { rx, early: None }
+    }
+
+    /// Submits a job through `SharedTaskRunner::spawn` without waiting; the job reports over a channel
+    /// of its own exactly as `run_with_result` does (a panic drops the sender).
+    pub fn submit(&self, kind: JobKind) -> Ticket {
+        let (tx, rx) = mpsc::channel();
+        let r = self.runner.spawn(move |_ctx| {
+            let res = body(kind);
+            let _ = tx.send(if res.is_ok() { Answer::Ok } else { Answer::Err });
+            Ok(())
+        });
+        Ticket { rx, early: if r.is_err() { Some(Answer::Rejected) } else { None } }
+    }
+
+    /// Waits for the answer of a submitted job. `Lost` is returned when the job is unanswered and no
+    /// worker is alive (checked twice, `grace` apart); `TimedOut` after `max_wait` with workers alive.
+    pub fn wait(&self, t: Ticket, grace: Duration, max_wait: Duration) -> Answer {
+        if let Some(a) = t.early {
+            return a;
+        }
+        let start = Instant::now();
+        loop {
+            match t.rx.recv_timeout(Duration::from_millis(2)) {
+                Ok(a) => return a,
+                Err(mpsc::RecvTimeoutError::Disconnected) => return Answer::PanicAsError,
+                Err(mpsc::RecvTimeoutError::Timeout) => {}
+            }
+            if self.live_workers() == 0 {
+                std::thread::sleep(grace);
+                return match t.rx.try_recv() {
+                    Ok(a) => a,
+                    Err(TryRecvError::Disconnected) => Answer::PanicAsError,
+                    Err(TryRecvError::Empty) => Answer::Lost,
+                };
+            }
+            if start.elapsed() > max_wait {
+                return Answer::TimedOut;
+            }
+        }
+    }
+}
